@@ -9,6 +9,7 @@
 (*          cls, rebuild   (kind = "exc") class name; can it be rebuilt from one string *)
 (*          mod     "normal" | "local" | "ignore"]                                     *)
 (* Events: Call(n, same, isnone, raised, excls, msgok)   n = bodies executed            *)
+(*         Disturb (another call writes under the same override key)   Reopen             *)
 (*         Memento(rtype)   Forget                                                       *)
 EXTENDS Naturals, Sequences, TLC
 
@@ -42,6 +43,9 @@ Clauses(st, e) ==
          <<"recorded_result_type_matches_value",
              e.rtype = IF ~st.stored THEN "none" ELSE IF c.kind = "exc" THEN "exception" ELSE RType(c.tag, c.dtype)>> >>
     [] e.op = "Forget" -> << <<"forget_raises_nothing", e.exc = "">> >>
+    \* another call published a different result under the same override key / a new backend object was opened: no
+    \* business of this call, whose later results must be what they were
+    [] e.op \in {"Disturb", "Reopen"} -> << <<"unrelated_operation_raises_nothing", e.exc = "">> >>
     [] OTHER -> << <<"known_event", FALSE>> >>
 
 TOk(st, e)  == \A i \in 1..Len(Clauses(st, e)) : Clauses(st, e)[i][2]
